@@ -360,6 +360,15 @@ fn cmd_ipm(args: &Args) {
         if args.num("settings", 1) != 0 {
             p.settings = gen::random_settings(&mut rng, p.is_symmetric());
         }
+        if family == "inverted" {
+            // one full tolerance loose, the others tight, reduced tolerances in between, and a budget that cuts the run short:
+            // Almost* may only be reported when the REDUCED tolerances hold, whatever the full ones are
+            if !p.settings.is_object() { p.settings = json!({}); }
+            let which = rng.gen_range(0..3);
+            for (i, k) in ["tol_gap_abs", "tol_gap_rel", "tol_feas"].iter().enumerate() { p.settings[*k] = json!(if i == which || (which == 0 && i == 1) { 1e-2 } else { 1e-10 }); }
+            for k in ["reduced_tol_gap_abs", "reduced_tol_gap_rel", "reduced_tol_feas"] { p.settings[k] = json!([1e-5, 1e-7][rng.gen_range(0..2)]); }
+            p.settings["max_iter"] = json!(rng.gen_range(1..9));
+        }
         if family == "gate" {
             if !p.settings.is_object() { p.settings = json!({}); }
             let g = [1.0, 1e3, 1e-2][rng.gen_range(0..3)];
@@ -466,6 +475,8 @@ pub fn gen_family(rng: &mut StdRng, family: &str, nmax: usize) -> problem::Probl
             if rng.gen::<f64>() < 0.5 { gen::planted_feasible(rng, &o) }
             else if rng.gen::<f64>() < 0.5 { gen::planted_pinf(rng, &o) } else { gen::planted_dinf(rng, &o) }
         }
+        // (settings for this family are set by the caller: full tolerances LOOSER than the reduced ones, small budgets)
+        "inverted" => gen::planted_feasible(rng, &o),
         "gate" => {
             // infeasible, badly scaled (rows and columns spread over up to 8 decades); run with the kappa/tau gate wide open
             // (set by the caller), so that the run stops as soon as the certificate residual test itself passes
